@@ -24,3 +24,6 @@ int vw_c02_compiler_state (char *buf, int len) {
   n += snprintf (buf + n, len - n, "P compiler.freed_string=%d\n", freed_string);
   return n;
 }
+
+/* the locals tables as init_locals() leaves them at boot (they only grow afterwards) */
+void vw_c02_reset_locals (void) { deinit_locals (); init_locals (); }
